@@ -548,9 +548,11 @@ func runGo(c *testCase, checkObs bool) (res *caseResult, fatal string) {
 			}
 		}
 		r.uni, r.total0, r.total1, r.suicides = uni, totalBefore, totalAfter, tr.suicides
-		r.dump = append(observe(st, uni, res.slots, false), "logs="+logsText(st, thash), fmt.Sprintf("refund=%d", st.GetRefund()))
+		// dumps compared with the model show empty accounts as non-existent (see Driver/C16.lean dumpAcct);
+		// the failing-frame oracle above compares existence exactly
+		r.dump = append(observe(st, uni, res.slots, true), "logs="+logsText(st, thash), fmt.Sprintf("refund=%d", st.GetRefund()))
 		st.Finalise(true)
-		r.dumpFin = append(observe(st, uni, res.slots, false), "logs=-", "refund=0")
+		r.dumpFin = append(observe(st, uni, res.slots, true), "logs=-", "refund=0")
 		res.txs = append(res.txs, r)
 	}
 	res.addrs = tr.universe()
